@@ -88,6 +88,7 @@ class Case:
                                # loaded from a file is), before or after the attribute is added to its class
                                'typed': rng.choice(['ctor', 'ctor', 'late', 'late-after-add'])})
         self.nobj = rng.randrange(2, 4)
+        self.enum_build = rng.choice(['ctor', 'ctor', 'bulk', 'clear-bulk'])
         self.ops = []
         for _ in range(rng.randrange(3, 10 if not thorough else 16)):
             o, a = rng.randrange(self.nobj), rng.randrange(na)
@@ -95,12 +96,22 @@ class Case:
             self.ops.append([k, o, a, rng.randrange(0, 3)])
 
     def to_json(self):
-        return {'attrs': self.attrs, 'nobj': self.nobj, 'ops': self.ops}
+        return {'attrs': self.attrs, 'nobj': self.nobj, 'ops': self.ops, 'enum_build': self.enum_build}
 
 
 def build(E, cj):
     tt = type_table(E)
-    color = E.EEnum('Color', literals=['red', 'green', 'blue'])
+    eb = cj.get('enum_build', 'ctor')
+    if eb == 'ctor':
+        color = E.EEnum('Color', literals=['red', 'green', 'blue'])
+    else:
+        # the literals arrive in BULK (extend), possibly after an earlier population was cleared: the type's default
+        # is the first literal the enumeration holds NOW
+        color = E.EEnum('Color')
+        if eb == 'clear-bulk':
+            color.eLiterals.extend([E.EEnumLiteral(name='old0', value=7), E.EEnumLiteral(name='old1', value=8)])
+            color.eLiterals.clear()
+        color.eLiterals.extend([E.EEnumLiteral(name=x, value=i) for i, x in enumerate(['red', 'green', 'blue'])])
     A = E.EClass('A')
     feats = []
     info = []
